@@ -410,19 +410,37 @@ func c17(c *Ctx) {
 			c.R.Undecided("R-bind-sensor", fk, fk, c.P.Pos(newSensor.Pos()), "no test of <sensor config>.HwMon != nil found (anchor unresolved)")
 			continue
 		}
-		var tempStores []*ssa.Store
-		Instrs(fn, func(ins ssa.Instruction) {
-			if st, ok := ins.(*ssa.Store); ok {
-				if fa, ok := st.Addr.(*ssa.FieldAddr); ok {
-					if _, n, _ := ir.FieldName(fa); n == "TempInput" {
-						tempStores = append(tempStores, st)
-					}
-				}
+		tempStores := tempInputStores(fn)
+		// the lookup may live in a helper called from here: its stores count, through a summary of the
+		// helper's outcomes that do not bind (see binderOutcomes)
+		type binderCall struct {
+			call *ssa.Call
+			outs []bindOutcome
+		}
+		var binders []binderCall
+		var helperStores []*ssa.Store
+		Calls(fn, func(cc ssa.CallInstruction) {
+			call, ok := cc.(*ssa.Call)
+			if !ok {
+				return
+			}
+			h := ir.Callee(call).Static
+			if h == nil || h == fn || !c.P.IsRepoFunc(h) || len(h.Blocks) == 0 || load_FuncPkgPath(h) != load_FuncPkgPath(fn) {
+				return
+			}
+			if hs := tempInputStores(h); len(hs) > 0 {
+				binders = append(binders, binderCall{call, binderOutcomes(h, hs)})
+				helperStores = append(helperStores, hs...)
 			}
 		})
 		isTemp := func(ins ssa.Instruction) bool {
 			for _, s := range tempStores {
 				if ins == ssa.Instruction(s) {
+					return true
+				}
+			}
+			for _, bc := range binders {
+				if ins == ssa.Instruction(bc.call) {
 					return true
 				}
 			}
@@ -434,13 +452,36 @@ func c17(c *Ctx) {
 				reached = true
 			}
 		})
-		if reached || len(tempStores) == 0 {
+		// after a helper call: for each way the helper can return without having bound, the path to NewSensor
+		// must cross an edge that contradicts that outcome (err != nil returned on, !found turned into an error)
+		for _, bc := range binders {
+			for _, u := range bc.outs {
+				u := u
+				stop := func(b *ssa.BasicBlock, si int) bool { return u.contradictedBy(bc.call, ir.EdgeFacts(b, si)) }
+				start := ir.Point{Block: bc.call.Block(), Idx: instrIndex(bc.call) + 1}
+				ir.Search{StopInstr: func(ins ssa.Instruction) bool {
+					for _, s := range tempStores {
+						if ins == ssa.Instruction(s) {
+							return true
+						}
+					}
+					return false
+				}, StopEdge: stop, TrackBools: true}.Reach([]ir.Point{start}, func(ins ssa.Instruction, _ *ssa.BasicBlock) {
+					if ins == ssa.Instruction(newSensor) {
+						reached = true
+					}
+				})
+			}
+		}
+		tempStoresAll := append(append([]*ssa.Store{}, tempStores...), helperStores...)
+		if reached || len(tempStoresAll) == 0 {
 			c.R.Bad("R-bind-sensor", fk, fk, c.P.Pos(newSensor.Pos()), "a hwmon sensor is created on a path on which no temperature input of a matching device was bound (missing platform/index is not turned into an error)")
 		} else {
 			c.R.Ok("R-bind-sensor", fk, fk, c.P.Pos(newSensor.Pos()), "for a hwmon entry NewSensor is reachable only after TempInput was stored (tracked through the boolean flag)")
 		}
-		for _, st := range tempStores {
+		for _, st := range tempStoresAll {
 			facts := ir.BlockFacts(st.Block())
+			fk := c.FK(st.Parent())
 			matched := ir.HasBool(facts, true, func(v ssa.Value) bool {
 				return platformMatch(tb.Of(v, nil), func(x *ir.Term) bool { return x.Op == "field:Platform" })
 			})
@@ -526,4 +567,121 @@ func platformMatch(t *ir.Term, isEntryPlatform func(*ir.Term) bool) bool {
 		return false
 	}
 	return pat.Has(isEntryPlatform) && subj.Op == "field:Platform" && !subj.Has(func(x *ir.Term) bool { return x != subj && isEntryPlatform(x) })
+}
+
+func tempInputStores(fn *ssa.Function) []*ssa.Store {
+	var out []*ssa.Store
+	Instrs(fn, func(ins ssa.Instruction) {
+		if st, ok := ins.(*ssa.Store); ok {
+			if fa, ok := st.Addr.(*ssa.FieldAddr); ok {
+				if _, n, _ := ir.FieldName(fa); n == "TempInput" {
+					out = append(out, st)
+				}
+			}
+		}
+	})
+	return out
+}
+
+func instrIndex(ins ssa.Instruction) int {
+	for i, x := range ins.Block().Instrs {
+		if x == ins {
+			return i
+		}
+	}
+	return -1
+}
+
+// bindOutcome is one way a binding helper can return without having stored TempInput: what is then
+// known about its boolean and error results (nil pointer: not known).
+type bindOutcome struct {
+	boolIdx, errIdx int // result indexes (-1: none)
+	boolVal         *bool
+	errNil          *bool
+}
+
+// binderOutcomes enumerates the returns of h reachable from its entry without passing a TempInput
+// store (path-sensitive in boolean flags).
+func binderOutcomes(h *ssa.Function, stores []*ssa.Store) []bindOutcome {
+	ei := errResultIndex(h)
+	bi := -1
+	res := h.Signature.Results()
+	for i := 0; i < res.Len(); i++ {
+		if b, ok := res.At(i).Type().Underlying().(*types.Basic); ok && b.Kind() == types.Bool && bi < 0 {
+			bi = i
+		}
+	}
+	var outs []bindOutcome
+	isStore := func(ins ssa.Instruction) bool {
+		for _, s := range stores {
+			if ins == ssa.Instruction(s) {
+				return true
+			}
+		}
+		return false
+	}
+	s := ir.Search{StopInstr: isStore, TrackBools: true}
+	s.VisitEnv = func(ins ssa.Instruction, via *ssa.BasicBlock, known func(ssa.Value) (bool, bool)) {
+		ret, ok := ins.(*ssa.Return)
+		if !ok {
+			return
+		}
+		u := bindOutcome{boolIdx: bi, errIdx: ei}
+		if bi >= 0 {
+			if v, k := known(ir.ResultVia(ret, bi, via)); k {
+				u.boolVal = &v
+			} else if v, k := known(ret.Results[bi]); k {
+				u.boolVal = &v
+			}
+		}
+		if ei >= 0 {
+			facts := factsAt(ret.Block(), via)
+			rv := ir.ResultVia(ret, ei, via)
+			switch {
+			case !mayBeNilError(rv, facts):
+				f := false
+				u.errNil = &f
+			case ir.IsNilConst(ir.Resolve(rv)):
+				t := true
+				u.errNil = &t
+			}
+		}
+		outs = append(outs, u)
+	}
+	s.Reach([]ir.Point{{Block: h.Blocks[0], Idx: 0}}, func(ssa.Instruction, *ssa.BasicBlock) {})
+	return outs
+}
+
+// contradictedBy: the facts of an edge in the caller rule this outcome of call out.
+func (u bindOutcome) contradictedBy(call *ssa.Call, facts []ir.Fact) bool {
+	resultOf := func(v ssa.Value, idx int) bool {
+		v = ir.Resolve(v)
+		if idx < 0 {
+			return false
+		}
+		if ex, ok := v.(*ssa.Extract); ok {
+			return ex.Tuple == ssa.Value(call) && ex.Index == idx
+		}
+		return v == ssa.Value(call) && call.Call.Signature().Results().Len() == 1
+	}
+	for _, f := range facts {
+		if f.Bool != nil && u.boolVal != nil && resultOf(f.Bool, u.boolIdx) && f.Truth != *u.boolVal {
+			return true
+		}
+		if u.errNil != nil && (f.Op == token.EQL || f.Op == token.NEQ) {
+			var x ssa.Value
+			switch {
+			case ir.IsNilConst(f.Y):
+				x = f.X
+			case ir.IsNilConst(f.X):
+				x = f.Y
+			default:
+				continue
+			}
+			if resultOf(x, u.errIdx) && (f.Op == token.EQL) != *u.errNil {
+				return true
+			}
+		}
+	}
+	return false
 }
